@@ -57,22 +57,89 @@ theorem nsKeep_checkMessage (c : Cli) (buf : List Nat) : NsKeep c (checkMessage 
   all_goals (try simp [emit, nsLog])
   all_goals (intro h1 h2 h3; exact ⟨h1, h2, h3⟩)
 
-/-- a send call or a received message -/
+theorem isIFrame_sframe (lo hi : Nat) : isIFrame [0x68, 4, 1, 0, lo, hi] = false := by simp [isIFrame]
+
+theorem nsKeep_confirm (c : Cli) : NsKeep c (confirmOutstanding c) := by
+  unfold confirmOutstanding
+  exact (nsKeep_of_eq rfl rfl rfl rfl).trans (nsKeep_write _ _ (isIFrame_sframe _ _))
+
+theorem nsKeep_phaseT3 (c : Cli) : NsKeep c (phaseT3 c).1 := by
+  unfold phaseT3
+  repeat' split
+  all_goals first
+    | exact NsKeep.refl _
+    | exact (nsKeep_write _ _ (by decide)).trans (nsKeep_of_eq rfl rfl rfl rfl)
+
+theorem nsKeep_phaseT2 (c : Cli) : NsKeep c (phaseT2 c) := by
+  unfold phaseT2
+  repeat' split
+  all_goals first
+    | exact NsKeep.refl _
+    | exact nsKeep_confirm _
+
+theorem nsKeep_phaseT1 (c : Cli) : NsKeep c (phaseT1 c).1 := by
+  unfold phaseT1
+  repeat' split
+  all_goals exact NsKeep.refl _
+
+theorem nsKeep_handleTimeouts (c : Cli) : NsKeep c (handleTimeouts c).1 := by
+  unfold handleTimeouts
+  simp only
+  split
+  · exact nsKeep_phaseT3 c
+  · exact (nsKeep_phaseT3 c).trans ((nsKeep_phaseT2 _).trans (nsKeep_phaseT1 _))
+
+theorem nsKeep_ackIfW (c : Cli) : NsKeep c (ackIfW c) := by
+  unfold ackIfW
+  split
+  · exact nsKeep_confirm c
+  · exact NsKeep.refl c
+
+theorem nsKeep_sendStartDT (c : Cli) : NsKeep c (sendStartDT c) := by
+  unfold sendStartDT
+  exact (nsKeep_of_eq rfl rfl rfl rfl).trans (nsKeep_write _ _ (by decide))
+
+theorem nsKeep_sendStopDT (c : Cli) : NsKeep c (sendStopDT c) := by
+  unfold sendStopDT
+  exact (nsKeep_confirm c).trans ((nsKeep_of_eq rfl rfl rfl rfl).trans (nsKeep_write _ _ (by decide)))
+
+/-- what the application and the connection thread do on an open connection: a send call, a received message, a pass
+over the timers (t1, t2, t3), the `w` test, STARTDT / STOPDT requests -/
 inductive MOp where
   | send (a : List Nat)
   | recv (m : List Nat)
+  | timers
+  | ackW
+  | startdt
+  | stopdt
 
 def MOp.apply (c : Cli) : MOp → Cli
   | .send a => (sendAsdu c a).1
   | .recv m => (checkMessage c m).1
+  | .timers => (handleTimeouts c).1
+  | .ackW => ackIfW c
+  | .startdt => sendStartDT c
+  | .stopdt => sendStopDT c
+
+def MOp.isSend : MOp → Bool
+  | .send _ => true
+  | _ => false
 
 def mixRun (c : Cli) (ops : List MOp) : Cli := ops.foldl MOp.apply c
 
 /-- how many of the send calls in the history report success -/
 def mixSent (c : Cli) : List MOp → Nat
   | [] => 0
-  | .send a :: r => (if (sendAsdu c a).2 then 1 else 0) + mixSent (sendAsdu c a).1 r
-  | .recv m :: r => mixSent (checkMessage c m).1 r
+  | op :: r => (match op with | .send a => (if (sendAsdu c a).2 then 1 else 0) | _ => 0) + mixSent (op.apply c) r
+
+theorem nsKeep_apply (c : Cli) (op : MOp) (h : op.isSend = false) : NsKeep c (op.apply c) := by
+  cases op with
+  | send a => simp [MOp.isSend] at h
+  | recv m => exact nsKeep_checkMessage c m
+  | timers => exact nsKeep_handleTimeouts c
+  | ackW => exact nsKeep_ackIfW c
+  | startdt => exact nsKeep_sendStartDT c
+  | stopdt => exact nsKeep_sendStopDT c
 
 theorem range_shift (v n : Nat) :
     v % 32768 :: (List.range n).map (fun j => ((v + 1) % 32768 + j) % 32768) =
@@ -93,13 +160,20 @@ theorem ns_on_the_wire_mix : ∀ (ops : List MOp) (c : Cli), c.vs < 32768 → Wr
   | nil => intro c _ _; simp [mixRun, mixSent]
   | cons op ops ih =>
     intro c hv hw
-    cases op with
-    | recv m =>
-      obtain ⟨h1, h2, h3⟩ := nsKeep_checkMessage c m
-      have := ih (checkMessage c m).1 (by rw [h1]; exact hv) (h2 hw)
+    by_cases hsend : op.isSend = false
+    · obtain ⟨h1, h2, h3⟩ := nsKeep_apply c op hsend
+      have := ih (op.apply c) (by rw [h1]; exact hv) (h2 hw)
       unfold mixRun at this ⊢
-      simp only [List.foldl_cons, MOp.apply, mixSent]
+      have h0 : (match op with | .send a => (if (sendAsdu c a).2 then 1 else 0) | _ => 0) = 0 := by
+        cases op <;> simp_all [MOp.isSend]
+      simp only [List.foldl_cons, mixSent, h0, Nat.zero_add]
       rw [this, h3, h1]
+    cases op with
+    | recv m => simp [MOp.isSend] at hsend
+    | timers => simp [MOp.isSend] at hsend
+    | ackW => simp [MOp.isSend] at hsend
+    | startdt => simp [MOp.isSend] at hsend
+    | stopdt => simp [MOp.isSend] at hsend
     | send a =>
       obtain ⟨hs, hf⟩ := sendAsdu_vs c a
       obtain ⟨hl, hw'⟩ := sendAsdu_wire c a hw
